@@ -34,6 +34,63 @@ def basic_codes(ctx):
                 ctx.violation('basic-logical-lighter', 'a supplied logical is lighter than d', {'code': repr(code)})
 
 
+def low_weight_sweep(ctx):
+    """Every size of every family in the C07 range: no non-trivial normalizer element of weight 1 (all sizes) or
+    2 (n <= 120) when d exceeds that weight - a cheap necessary condition that reaches sizes far beyond the
+    exhaustive search budget."""
+    from qecsim.models.planar import PlanarCode
+    from qecsim.models.toric import ToricCode
+    from qecsim.models.rotatedplanar import RotatedPlanarCode
+    from qecsim.models.rotatedtoric import RotatedToricCode
+    from qecsim.models.color import Color666Code
+    from harness.c07 import gf2_rank
+    q = ctx.quick
+    sizes = [(PlanarCode, (r, c)) for r in range(2, 11 if q else 17) for c in range(2, 11 if q else 17)]
+    sizes += [(ToricCode, (r, c)) for r in range(2, 11 if q else 17) for c in range(2, 11 if q else 17)]
+    sizes += [(RotatedPlanarCode, (r, c)) for r in range(3, 12 if q else 18) for c in range(3, 12 if q else 18)]
+    sizes += [(RotatedToricCode, (r, c)) for r in range(2, 13 if q else 19, 2) for c in range(2, 13 if q else 19, 2)]
+    sizes += [(Color666Code, (s,)) for s in range(3, 14 if q else 22, 2)]
+    for cls, args in sizes:
+        code = cls(*args)
+        n, k, d = code.n_k_d
+        S = np.array(code.stabilizers, dtype=np.uint8)
+        Sx, Sz = S[:, :n].astype(np.int64), S[:, n:].astype(np.int64)
+        rS = None
+        singles = []
+        for qb in range(n):
+            for pl in (1, 2, 3):
+                singles.append((qb, pl))
+        cand = []
+        if d > 1:
+            E = np.zeros((len(singles), 2 * n), dtype=np.int64)
+            for i, (qb, pl) in enumerate(singles):
+                E[i, qb], E[i, n + qb] = pl & 1, pl >> 1
+            syn = (E[:, n:] @ Sx.T + E[:, :n] @ Sz.T) % 2
+            cand += [E[i] for i in np.flatnonzero(~syn.any(axis=1))]
+            if d > 2 and n <= 120:
+                # pairs: syndromes add
+                ssyn = syn.astype(np.uint8)
+                packed = np.packbits(ssyn, axis=1)
+                index = {}
+                for i in range(len(singles)):
+                    index.setdefault(packed[i].tobytes(), []).append(i)
+                for key_, lst in index.items():
+                    for a in range(len(lst)):
+                        for b in range(a + 1, len(lst)):
+                            i, j = lst[a], lst[b]
+                            if singles[i][0] != singles[j][0] and ssyn[i].any():
+                                cand.append((E[i] + E[j]) % 2)
+        ctx.count(('low-weight', cls.__name__, args), args[0] != args[-1] or d >= 3, 'low-weight-sweep',
+                  {'code': repr(code), 'd': d, 'commuting_low_weight_operators': len(cand)} if len(ctx.samples) < 9 else None)
+        for v in cand[:50]:
+            if rS is None:
+                rS = gf2_rank(S)
+            if gf2_rank(np.vstack([S, v.astype(np.uint8)])) > rS:
+                ctx.violation('low-weight-logical', 'a non-trivial logical operator lighter than the advertised d exists',
+                              {'code': repr(code), 'n_k_d': [n, k, d], 'operator': ''.join('IXZY'[int(v[i]) + 2 * int(v[n + i])] for i in range(n))})
+                break
+
+
 def run(ctx):
     ctx.rule = ('per family: exhaustive CSS search (X-type and Z-type supports) over operators of weight < d on the '
                 'implementation\'s matrices for every size within the tier budget incl. non-square; a weight-d '
@@ -42,6 +99,7 @@ def run(ctx):
     lat_common.prepare(ctx)
     fams = lat_common.run_families(ctx, 'check_c08', translator_families=['planar', 'toric', 'rotplanar', 'rottoric', 'color'])
     basic_codes(ctx)
+    low_weight_sweep(ctx)
     ctx.extra['families'] = fams + ['basic']
 
 
